@@ -38,6 +38,9 @@ enum Call {
     Send,
     Recv,
     Release,
+    /// release through a public `&mut` route that keeps the association value alive
+    /// (the deprecated `client::Release` trait of ClientAssociation<TcpStream>)
+    ReleaseMut,
     Abort,
     Drop,
 }
@@ -47,6 +50,7 @@ fn call_of(s: &str) -> Call {
         "send" => Call::Send,
         "recv" => Call::Recv,
         "release" => Call::Release,
+        "release_mut" => Call::ReleaseMut,
         "abort" => Call::Abort,
         "drop" => Call::Drop,
         _ => panic!("unknown call {s}"),
@@ -58,6 +62,7 @@ fn call_name(c: Call) -> &'static str {
         Call::Send => "send",
         Call::Recv => "recv",
         Call::Release => "release",
+        Call::ReleaseMut => "release_mut",
         Call::Abort => "abort",
         Call::Drop => "drop",
     }
@@ -89,11 +94,42 @@ fn err_class(e: &AssocError) -> String {
 
 /// One peer: executes calls in the order received, reports (call, outcome, terminal state).
 /// `recv` is one turn of an SCP application loop (as storescp's `inner`).
-fn peer_loop<A: SyncAssociation<TcpStream>>(assoc: A, ctx: u8, rx: Receiver<Call>, tx: Sender<(Call, String, Option<&'static str>)>) {
+type ReleaseMutFn<A> = fn(&mut A) -> Result<(), AssocError>;
+
+#[allow(deprecated)]
+fn client_release_mut(a: &mut dicom_ul::association::client::ClientAssociation<TcpStream>) -> Result<(), AssocError> {
+    dicom_ul::association::client::Release::release(a)
+}
+
+fn peer_loop<A: SyncAssociation<TcpStream>>(assoc: A, ctx: u8, rx: Receiver<Call>, tx: Sender<(Call, String, Option<&'static str>)>, release_mut: Option<ReleaseMutFn<A>>) {
     let mut a = Some(assoc);
+    // set once a release through a `&mut` route has completed: the value stays alive and
+    // the application may (wrongly) go on using it
+    let mut released_alive = false;
     while let Ok(c) = rx.recv() {
         let (out, term): (String, Option<&'static str>) = match (c, a.as_mut()) {
             (_, None) => ("gone".into(), None),
+            (Call::Drop, Some(_)) if released_alive => {
+                a = None;
+                ("ok".into(), None)
+            }
+            (Call::Recv | Call::Release | Call::ReleaseMut | Call::Abort, Some(_)) if released_alive => ("gone".into(), None),
+            (Call::ReleaseMut, Some(x)) => match release_mut {
+                Some(f) => match f(x) {
+                    Ok(()) => {
+                        released_alive = true;
+                        ("ok".into(), Some("Released"))
+                    }
+                    Err(e) => {
+                        a = None; // the failed association is dropped, as the owning release does
+                        (format!("err:{}", err_class(&e)), Some("Failed"))
+                    }
+                },
+                None => match a.take().unwrap().release() {
+                    Ok(()) => ("ok".into(), Some("Released")),
+                    Err(e) => (format!("err:{}", err_class(&e)), Some("Failed")),
+                },
+            },
             (Call::Send, Some(x)) => match SyncAssociation::send(x, &data_pdu(ctx)) {
                 Ok(()) => ("ok".into(), None),
                 Err(e) => (format!("err:{}", err_class(&e)), None),
@@ -172,7 +208,7 @@ where
                     (format!("err:{c}"), Some(st))
                 }
             },
-            (Call::Release, Some(_)) => match rt.block_on(AA::release(a.take().unwrap())) {
+            (Call::Release | Call::ReleaseMut, Some(_)) => match rt.block_on(AA::release(a.take().unwrap())) {
                 Ok(()) => ("ok".into(), Some("Released")),
                 Err(e) => (format!("err:{}", err_class(&e)), Some("Failed")),
             },
@@ -336,7 +372,7 @@ fn run_lib_case(sched: &[(usize, Call)], w: &mut Vec<serde_json::Value>, corrupt
         match opts.establish(stream) {
             Ok(assoc) => {
                 let _ = est_tx.send(Ok(()));
-                peer_loop(assoc, 1, ac_crx, ac_rtx)
+                peer_loop(assoc, 1, ac_crx, ac_rtx, None)
             }
             Err(e) => {
                 let _ = est_tx.send(Err(format!("acceptor establish: {e}")));
@@ -365,7 +401,7 @@ fn run_lib_case(sched: &[(usize, Call)], w: &mut Vec<serde_json::Value>, corrupt
             Ok(mut assoc) => {
                 let _ = assoc.inner_stream().set_nodelay(true); // latency only (Nagle + delayed ACK)
                 let _ = est_tx2.send(Ok(()));
-                peer_loop(assoc, 1, rq_crx, rq_rtx)
+                peer_loop(assoc, 1, rq_crx, rq_rtx, Some(client_release_mut))
             }
             Err(e) => {
                 let _ = est_tx2.send(Err(format!("requestor establish: {e}")));
@@ -425,7 +461,7 @@ fn run_lib_case(sched: &[(usize, Call)], w: &mut Vec<serde_json::Value>, corrupt
                     wait_log(&proxy, |l| count(l, name, "closed", None) > 0, short);
                 }
             }
-            Call::Release => {
+            Call::Release | Call::ReleaseMut => {
                 // blocking call: wait until its request is on the wire (or it has returned)
                 let t0 = Instant::now();
                 loop {
@@ -513,6 +549,23 @@ fn run_lib(args: &std::collections::HashMap<String, String>) {
     }
     let selftest = args.contains_key("selftest");
     let is_async = args.contains_key("async");
+    // Every second schedule in which the requestor releases does so through the `&mut`
+    // route (association value kept alive) and afterwards TRIES a send on the released
+    // association: nothing of it may reach the wire, and the connection must be closed.
+    let mut mut_routes = 0usize;
+    if !is_async {
+        let mut k = 0usize;
+        for s in scheds.iter_mut() {
+            if let Some(pos) = s.iter().position(|&(p, c)| p == 0 && c == Call::Release) {
+                k += 1;
+                if k % 2 == 0 {
+                    s[pos].1 = Call::ReleaseMut;
+                    s.push((0, Call::Send));
+                    mut_routes += 1;
+                }
+            }
+        }
+    }
     let mut w = NdjsonWriter::create(&args["out"]);
     let mut rep = Report::new();
     let mut inter = std::collections::BTreeSet::new();
@@ -555,6 +608,7 @@ fn run_lib(args: &std::collections::HashMap<String, String>) {
     rep.extra.insert("events".into(), json!(events));
     rep.extra.insert("distinct_wire_interleavings".into(), json!(inter.len()));
     rep.extra.insert("setup_failures".into(), json!(failed));
+    rep.extra.insert("release_by_mut_route".into(), json!(mut_routes));
     rep.print();
 }
 
